@@ -185,7 +185,7 @@ def run(ck: common.Check):
     import random
     hand = [dict(h, kind="hand", hint_id=h["id"]) for h in S.HAND if not h["witness"]]
     wit = [dict(h, kind="hand", hint_id=h["hint"]) for h in S.HAND if h["witness"]]
-    n_gen = ck.n(8, 70)
+    n_gen = ck.n(8, 36)
     gen = []
     feats = [None, {"divmod": 0.9, "calls": 0.7}, {"config": 0.8, "windows": 0.7, "extern": 0.5},
              {"calls": 0.9, "windows": 0.8, "config": 0.6}, {"shadow": 0.5, "divmod": 0.8, "nonzero_lo": 0.6}]
@@ -291,8 +291,8 @@ def run(ck: common.Check):
     sessions = hand + gen_ok
 
     hs_list = ["0", "1", "2", "3"] if quick else ["0", "1", "2", "3", "7", "17", "4242", "99991"]
-    nproc2 = ck.n(150, 300)
-    levels = [("none", {}), ("1e3", {"syms": 1000, "procs": 100, "objects": 1000}),
+    nproc2 = ck.n(100, 300)
+    levels = [("none", {}), ("1e3", {"syms": 1000, "procs": ck.n(60, 100), "objects": 1000}),
               ("1e5", {"syms": 100000, "procs": nproc2, "objects": 100000})]
     variants = []
     for i, hs in enumerate(hs_list):
